@@ -4,6 +4,7 @@ package sym
 
 import (
 	"fmt"
+	"strconv"
 	"strings"
 )
 
@@ -62,6 +63,47 @@ type Term struct {
 	Name string
 	Aux  int
 	id   int64 // assigned lazily per solver scope when emitted
+	key  string
+	size int32
+}
+
+// Key returns a canonical structural key for small terms ("" for big ones).
+func (t *Term) Key() string {
+	if t.key != "" || t.size < 0 {
+		return t.key
+	}
+	switch t.Op {
+	case OpConst:
+		t.key = constSMT(t)
+		t.size = 1
+		return t.key
+	case OpVar:
+		t.key = t.Name + ":" + strconv.Itoa(int(t.W))
+		t.size = 1
+		return t.key
+	}
+	var sb strings.Builder
+	sb.WriteByte('(')
+	sb.WriteString(t.head())
+	total := int32(1)
+	for _, a := range t.Args {
+		k := a.Key()
+		if k == "" {
+			t.size = -1
+			return ""
+		}
+		total += a.size
+		sb.WriteByte(' ')
+		sb.WriteString(k)
+	}
+	if total > 300 {
+		t.size = -1
+		return ""
+	}
+	sb.WriteByte(')')
+	t.size = total
+	t.key = sb.String()
+	return t.key
 }
 
 func mask(w uint8) uint64 {
@@ -309,6 +351,24 @@ func Bin(op Op, a, b *Term) *Term {
 				y = uint64(w) - 1
 			}
 			return BV(w, uint64(sx>>y))
+		}
+	}
+	if (op == OpUDiv || op == OpSDiv || op == OpURem || op == OpSRem) && a.Op == OpZExt && b.Op == OpConst {
+		// a is non-negative and small: divide at the narrow width (bit-blasting
+		// a 64-bit divider costs ~10 ms per query, a 16-bit one < 1 ms)
+		x := a.Args[0]
+		if b.Val != 0 && b.Val <= mask(x.W) && b.SInt() > 0 {
+			nop := OpUDiv
+			if op == OpURem || op == OpSRem {
+				nop = OpURem
+			}
+			return Resize(Bin(nop, x, BV(x.W, b.Val)), w, false)
+		}
+		if b.Val != 0 && b.SInt() > 0 && b.Val > mask(x.W) {
+			if op == OpUDiv || op == OpSDiv {
+				return BV(w, 0)
+			}
+			return a
 		}
 	}
 	switch op {
